@@ -19,6 +19,7 @@ pub enum Op {
     NewSession,
     DeleteFirst,
     DeleteLast,
+    DeleteSecondLast,
     Clear,
     ToggleTs,
     HistW,
@@ -38,7 +39,7 @@ fn ts_of(cmd: &str) -> i64 {
 
 pub fn all_ops() -> Vec<Op> {
     let mut v: Vec<Op> = (0..CMDS.len() as u8).map(Op::Add).collect();
-    v.extend([Op::Save, Op::NewSession, Op::DeleteFirst, Op::DeleteLast, Op::Clear, Op::ToggleTs, Op::HistW, Op::HistA]);
+    v.extend([Op::Save, Op::NewSession, Op::DeleteFirst, Op::DeleteLast, Op::DeleteSecondLast, Op::Clear, Op::ToggleTs, Op::HistW, Op::HistA]);
     v
 }
 
@@ -49,6 +50,7 @@ pub fn op_name(o: Op) -> String {
         Op::NewSession => "new-session".into(),
         Op::DeleteFirst => "history -d 1".into(),
         Op::DeleteLast => "history -d -1".into(),
+        Op::DeleteSecondLast => "history -d -2".into(),
         Op::Clear => "history -c".into(),
         Op::ToggleTs => "toggle HISTTIMEFORMAT".into(),
         Op::HistW => "history -w".into(),
@@ -114,6 +116,12 @@ impl RefModel {
             }
             Op::DeleteLast => {
                 self.items.pop();
+            }
+            Op::DeleteSecondLast => {
+                if self.items.len() >= 2 {
+                    let k = self.items.len() - 2;
+                    self.items.remove(k);
+                }
             }
             Op::Clear => self.items.clear(),
             Op::ToggleTs => self.tsflag = !self.tsflag,
@@ -257,6 +265,7 @@ impl HistModel {
             }
             Op::DeleteFirst => self.run_builtin(&mut sh, "history -d 1"),
             Op::DeleteLast => self.run_builtin(&mut sh, "history -d -1"),
+            Op::DeleteSecondLast => self.run_builtin(&mut sh, "history -d -2"),
             Op::Clear => self.run_builtin(&mut sh, "history -c"),
             Op::ToggleTs => {
                 if s.model.tsflag {
@@ -282,7 +291,7 @@ impl HistModel {
                     Op::Add(_) => "op:add",
                     Op::Save => "op:save",
                     Op::NewSession => "op:new-session",
-                    Op::DeleteFirst | Op::DeleteLast => "op:delete",
+                    Op::DeleteFirst | Op::DeleteLast | Op::DeleteSecondLast => "op:delete",
                     Op::Clear => "op:clear",
                     Op::ToggleTs => "op:toggle-ts",
                     Op::HistW => "op:history-w",
@@ -385,7 +394,7 @@ impl Model for HistModel {
                 self.record(&trace, "second-save-adds", format!("{:?}", got_file), format!("{:?}", file_lines(&file2)));
             }
         }
-        if !trace.iter().any(|o| matches!(o, Op::DeleteFirst | Op::DeleteLast | Op::Clear | Op::HistW)) {
+        if !trace.iter().any(|o| matches!(o, Op::DeleteFirst | Op::DeleteLast | Op::DeleteSecondLast | Op::Clear | Op::HistW)) {
             // histories of add/save/new-session/toggle only: the file's commands (everything but `#<digits>`
             // timestamp lines) form a subsequence of the recorded sequence — each recorded command at most
             // once and in recording order
